@@ -32,6 +32,7 @@ Inductive output := OVal (v : value) | OPair (a b : value) | OErr (e : N).
 Definition E_TYPE : N := 1.   (* UnexpectedType: predicate did not return a Bool *)
 Definition E_NEW : N := 2.    (* adaptor constructor refused its argument *)
 Definition E_OP : N := 3.     (* binary operator applied to a non-number *)
+Definition E_THROW : N := 4.  (* a `throw` inside a generator body / callback *)
 
 (* TryFrom<KIteratorOutput> for KValue / collect_pair / iter_output_to_result *)
 Definition collect (o : output) : res :=
@@ -58,7 +59,8 @@ Inductive event :=
 | EvEnd (id : N)                   (* tracing generator `id` ran to completion *)
 | EvCall (id : N) (arg : value)    (* callback `id` was called with arg *)
 | EvOut (r : res)                  (* consumer `next`: an output was delivered *)
-| EvNone.                          (* consumer `next`: None *)
+| EvNone                           (* consumer `next`: None / a `for _` iteration *)
+| EvFail (id : N).                 (* failing generator `id` threw *)
 
 Definition trace := list event.
 
@@ -93,7 +95,10 @@ Inductive iter :=
 | Windows (it : iter) (cache : list value) (window_size : N)
 | Zip (iter_a iter_b : iter)
 (* peekable.rs *)
-| Peekable (it : iter) (peeked_front peeked_back : option value).
+| Peekable (it : iter) (peeked_front peeked_back : option value)
+(* a tracing generator whose body throws when it reaches its element number `fail_at` (GeneratorIterator:
+   the error is delivered as Output::Error; the generator's VM is finished afterwards) *)
+| SFail (id : N) (items : list value) (fail_at : nat) (finished : bool).
 
 Inductive dir := Fwd | Bwd.
 
@@ -460,6 +465,15 @@ Fixpoint step (n : nat) (d : dir) (it : iter) {struct n} : option R :=
         | None => Some (t, option_map OVal pf, Peekable i' None None)
         end
       end
+    (* ---- the failing generator ---- *)
+    | SFail id items k fin, Fwd =>
+      if fin then Some ([], None, it)
+      else
+        match items, k with
+        | [], _ => Some ([EvEnd id], None, SFail id [] k true)
+        | _ :: _, O => Some ([EvFail id], Some (OErr E_THROW), SFail id items O true)
+        | x :: rest, S k' => Some ([EvPull id x], Some (OVal x), SFail id rest k' false)
+        end
     (* ---- KotoIterator::next_back default ---- *)
     | _, Bwd => Some ([], None, it)
     end
@@ -554,7 +568,10 @@ Inductive consumer :=
 | CToList | CToTuple | CCount | CSum | CProduct | CMin | CMax | CMinMax | CLast | CConsume
 | CAny (p : cb) | CAll (p : cb) | CFind (p : cb) | CPosition (p : cb)
 | CFold (init : value) (f : cb2)
-| CNexts (dirs : list dir).    (* a sequence of iterator.next / next_back calls on the same iterator *)
+| CNexts (dirs : list dir)     (* a sequence of iterator.next / next_back calls on the same iterator *)
+(* script-level consumers, executed by the VM's IterNext* / IterUnpack instructions *)
+| CFor (quiet : bool)          (* `for x in it` (body: emit x) / `for _ in it` (body: emit nothing of x); returns the count *)
+| CUnpack (mask : list bool).  (* `a, _, c = it`: one pull per target; true = named target (emitted afterwards) *)
 
 Definition int_op (op : Z -> Z -> Z) (a b : value) : res :=
   match a, b with
@@ -700,6 +717,27 @@ Fixpoint cnexts (n : nat) (dirs : list dir) (it : iter) : option (trace * cres *
     end
   end.
 
+(* for loop: the VM pulls (run_iterator_next), raises an Error output, otherwise runs the body *)
+Definition f_for (quiet : bool) (s : acc N) (o : output) : trace * acc N * bool :=
+  match s, collect o with
+  | inl c, ROk v => ([if quiet then EvNone else EvOut (ROk v)], inl (c + 1), false)
+  | inl _, RErr e => ([], inr e, true)
+  | inr e, _ => ([], inr e, true)
+  end.
+
+(* multi-assignment from an iterator: every target pulls once (None gives null); an Error output raises *)
+Fixpoint cunpack (n : nat) (mask : list bool) (it : iter) (outs : trace) : option (trace * cres * iter) :=
+  match mask with
+  | [] => Some (outs, CVal VNull, it)
+  | named :: ms =>
+    '(t, o, it') <- step n Fwd it ;;
+    match option_map collect o with
+    | Some (RErr e) => Some (t, CErr e, it')
+    | Some (ROk v) => '(t2, r, it2) <- cunpack n ms it' (if named then outs ++ [EvOut (ROk v)] else outs) ;; Some (t ++ t2, r, it2)
+    | None => '(t2, r, it2) <- cunpack n ms it' (if named then outs ++ [EvOut (ROk VNull)] else outs) ;; Some (t ++ t2, r, it2)
+    end
+  end.
+
 Definition fin {A} (g : A -> value) (s : acc A) : cres :=
   match s with inl a => CVal (g a) | inr e => CErr e end.
 
@@ -724,4 +762,6 @@ Definition consume (c : consumer) (n : nat) (it : iter) : option (trace * cres *
   | CPosition p => '(t, s, it') <- cfold _ (f_position p) n it (0, inl VNull) ;; Some (t, fin (fun v => v) (snd s), it')
   | CFold init f => '(t, s, it') <- cfold _ (f_fold f) n it (inl init) ;; Some (t, fin (fun v => v) s, it')
   | CNexts dirs => cnexts n dirs it
+  | CFor quiet => '(t, s, it') <- cfold _ (f_for quiet) n it (inl 0) ;; Some (t, fin (fun c => VInt (Z.of_N c)) s, it')
+  | CUnpack mask => cunpack n mask it []
   end.
